@@ -6,7 +6,7 @@ from app_case import run
 
 PATTERNS = ['/a', '/a/', '/a/<b>', '/a/<b>/', '/<x+>', '/n/<k:int>', '/']
 BEH = ['ok', 'ok', 'ok_base', 'raise', 'raise_http', 'raise_http_odd', 'return_http', 'nonbreaking_raise', 'nonbreaking_return', 'nonresponse']
-PATHS = ['/a', '/a/', '/a//', '/a/x', '/a/x/', '/a/x?y', '/a/x%y/', '/n/5', '/n/' + '9' * 5000, '/zzz', '/', '//a', '/a/é', '/a/ /x', '/a/ ', '/a/\t/']
+PATHS = ['/a', '/a/', '/a//', '/a/x', '/a/x/', '/a/x?y', '/a/x%y/', '/n/5', '/n/' + '9' * 5000, '/zzz', '/', '//a', '/a/é', '/a/ /x', '/a/ ', '/a/\t/', '/a///x', '/a/////x//', '///a', '/a///']
 QUERIES = ['', 'q=1', 'a=1&b=%20', '\xff', 'x=\xe9\xfe']
 METHODS = ['GET', 'POST', 'HEAD', 'get', 'FOO']
 
